@@ -307,12 +307,16 @@ func c14Check(c C14Case, rec *Recorder) *Disc {
 	return nil
 }
 
-func TestC14(t *testing.T) {
-	Prop[C14Case]{ID: "C14", Gen: c14Gen, Check: c14Check,
+func c14Prop() Prop[C14Case] {
+	return Prop[C14Case]{ID: "C14", Gen: c14Gen, Check: c14Check,
 		Rule: "generator: allowed-name sets of 1-8 names (prefixes/extensions of each other, mixed case in the configuration) x 0-4 ACRH field lines: 55% an increasing walk over the allowed names with <=1 OWS per side and <=14 empty elements, " +
 			"of which 45% get exactly one boundary mutation (17th / 16th empty element, 2 OWS on one side, 3-byte whitespace element, duplicate, swapped neighbours, element one byte over the longest name, upper case); 45% free-form elements " +
 			"(allowed names unsorted/repeated, prefix/extension/upper-case variants, runs of 0-20 empties, elements of length maxNameLen-1..+4 of name bytes or OWS, junk over {a b x - , SP HTAB NUL}) each with 0-3 OWS per side. " +
 			"Oracle: debug-off preflight approved (204 + ACAH echo) iff the reference list reader approves; browser-shaped sublists (joined, one per line, comma-space) always approved. " +
 			"non-trivial = approved with >=2 names / padding / several lines / empties, or rejected solely because of one planted boundary mutation; distinct by (allowed set, lines).",
-		Assumptions: []string{"checked through the public API: status 204 vs 403 of a debug-off preflight from an allowed origin with a safelisted method is the approval bit"}}.Run(t)
+		Assumptions: []string{"checked through the public API: status 204 vs 403 of a debug-off preflight from an allowed origin with a safelisted method is the approval bit"}}
 }
+
+func TestC14(t *testing.T) { c14Prop().Run(t) }
+
+func FuzzC14(f *testing.F) { FuzzProp(f, c14Prop()) }
